@@ -83,7 +83,13 @@ func verifyFunc(prog *Prog, specs *Specs, fn *ssa.Function, fc *FuncContract, op
 				continue
 			}
 			n++
+			sc.retGuards = map[string]bool{}
 			t, _ := un.evalSpec(cl.E, sc)
+			// a clause about ret(callee, k, i) speaks only about executions in which that call happened
+			for g := range sc.retGuards {
+				t = implies(g, t)
+			}
+			sc.retGuards = nil
 			label := cl.Label
 			if label == "" {
 				label = fmt.Sprintf("ensures%d", n)
@@ -132,7 +138,11 @@ func verifyLemma(prog *Prog, specs *Specs, l *Lemma) *Unit {
 }
 
 // smtFor renders the query for one obligation.
-func (un *Unit) smtFor(o *Obl, produceModels bool) string {
+func (un *Unit) smtFor(o *Obl, produceModels bool) string { return un.smtForOpt(o, produceModels, false) }
+
+// smtForOpt with dropQuant omits quantified hypotheses: the query becomes (nearly) quantifier-free, so a false goal
+// yields a model instead of `unknown`. Dropping hypotheses only weakens them: `unsat` is still a proof, `sat` only a candidate.
+func (un *Unit) smtForOpt(o *Obl, produceModels bool, dropQuant bool) string {
 	var sb strings.Builder
 	if produceModels {
 		sb.WriteString("(set-option :produce-models true)\n")
@@ -144,6 +154,9 @@ func (un *Unit) smtFor(o *Obl, produceModels bool) string {
 	}
 	for _, f := range un.facts {
 		if f.At < o.NFacts {
+			if dropQuant && (strings.Contains(f.T, "(forall ") || strings.Contains(f.T, "(exists ")) {
+				continue
+			}
 			sb.WriteString("(assert " + f.T + ")\n")
 		}
 	}
